@@ -145,7 +145,8 @@ def run_job(pid, job, acc):
         return run_wire_job(job, acc)
     if job["kind"] == "random":
         s = job["seed"]
-        hist = generate(s, style=("life" if job.get("life") else None), **GEN)
+        # (every third life history names one mailbox id in both apps: what commands do after the known F8 failure)
+        hist = generate(s, style=("life" if job.get("life") else None), **dict(GEN, **({"cross_app_mailboxes": s % 3 == 0, "two_apps": s % 3 == 0} if job.get("life") else {})))
         cfg = cfg_for(s)
         run_hist(acc, hist, cfg, s, "random:%d" % s, nontrivial_keys=KEYS, keep_sample=(len(acc.samples) < 1), pre=pre)
     else:
